@@ -7,17 +7,17 @@ HERE = os.path.dirname(os.path.dirname(os.path.abspath(__file__)))
 CHECKS = {
  "C11": ("inproc", "exploration",
    "online invariant monitor on hooked LRU state + eviction-event replay against a reference recency list",
-   "Every size 1..64 (thorough 1..300) plus large sizes, four access patterns each, >=50*S operations: resident count read under each shard's own lock after every operation and every eviction event compared with a replayed per-shard LRU; a reload that configures the same cache name with another size (bound = the larger size, whichever is in effect); reloads applied step by step (as main.update does) with client requests arriving between the cache step and the server step while a cache is renamed away and later configured again under its old name; then end-to-end through real servers with tiny caches (with and without a store), incl. fetches still in flight while their shard is filled by other keys and populations of 3S+20 uncacheable keys (at most S may still answer hitForPass when asked again). Holds on the executions produced, not a proof.",
+   "Every size 1..64 (thorough 1..300) plus large sizes, four access patterns each, >=50*S operations: resident count read under each shard's own lock after every operation and every eviction event compared with a replayed per-shard LRU; a reload that configures the same cache name with another size (bound = the larger size, whichever is in effect); reloads applied step by step (as main.update does) with client requests arriving between the cache step and the server step while a cache is renamed away and later configured again under its old name; then end-to-end through real servers with tiny caches (with and without a store), incl. fetches still in flight while their shard is filled by other keys and populations of 3S+20 uncacheable keys (at most S may still answer hitForPass when asked again) and of cacheable keys on caches whose configured store cannot be opened (at most S may still answer hit). Holds on the executions produced, not a proof.",
    "trusts lru.Cache.Len read through the tag-guarded VerifStats hook and the OnEvicted callback of groupcache; sequential access at the dispatcher level (concurrent access is C06/C20)",
    "DESIGN.md 6/C11"),
  "C14": ("inproc", "exploration",
    "reference-model monitor over exhaustive/random lookups + end-to-end origin observation",
-   "Exhaustive over ordered tuples of <=3 location shapes (2 hosts x 3 prefixes), name subsets and 15 queries against an independent routing predicate (any member of the best class accepted), sampled 4-tuples and random larger universes with duplicate names and prefix lengths from 1 to 236 characters; then random configurations applied as reloads to a running server with one origin per location, incl. percent-encoded request URIs (matched as sent) and requests carrying X-Forwarded-Host / Forwarded headers that name another configured host: which origin saw the request, 5xx and no upstream contact when nothing matches.",
+   "Exhaustive over ordered tuples of <=3 location shapes (2 hosts x 3 prefixes), name subsets and 15 queries against an independent routing predicate (any member of the best class accepted), sampled 4-tuples and random larger universes with duplicate names and prefix lengths from 1 to 236 characters; then random configurations applied as reloads to a running server with one origin per location, incl. percent-encoded request URIs (matched as sent) and requests carrying X-Forwarded-Host / Forwarded headers that name another configured host: which origin saw the request, 5xx and no upstream contact when nothing matches; locations whose only prefix is the catch-all /; locations whose upstream has no server alive (the request fails, it is not handed to a less specific location).",
    "the reference predicate encodes the statement (class order prefix+host < prefix < host < none); ties inside a class are not judged",
    "DESIGN.md 6/C14"),
  "C04": ("inproc", "exploration",
    "offline replay of recorded client/origin histories against the cache-entry reference model under a virtual clock; directed hook-point schedule; interval-sound monitor under a ticking clock",
-   "Generated timed histories (lifetimes 1..2^31-1, origin Age none/0/1/T-1, advances landing before/at/after the expiry second, bursts of 1-8) replayed exactly against the entry model in both directions (fresh => hit of the epoch's fetch with Age = elapsed, expired => exactly one refetch that replaces the entry); a directed schedule puts a clock tick between lookup and answer (with and without a refetch in between); a concurrent mode with a ticking clock and a hostile mode in which every clock reading advances the clock are judged with interval bounds. One history in three interleaves HEAD requests on the same URI (their own key, entry and lifetime). Histories also run against a cache whose store keeps records past their expiry and against a tiny cache that is evicted between steps; lifetimes also come from s-maxage with a contradicting max-age.",
+   "Generated timed histories (lifetimes 1..2^31-1, origin Age none/0/1/T-1, advances landing before/at/after the expiry second, bursts of 1-8) replayed exactly against the entry model in both directions (fresh => hit of the epoch's fetch with Age = elapsed, expired => exactly one refetch that replaces the entry); a directed schedule puts a clock tick between lookup and answer (with and without a refetch in between); a concurrent mode with a ticking clock and a hostile mode in which every clock reading advances the clock are judged with interval bounds. Half of the histories come from an origin whose own Date header is 45 s or a day away from the real clock. One history in three interleaves HEAD requests on the same URI (their own key, entry and lifetime). Histories also run against a cache whose store keeps records past their expiry and against a tiny cache that is evicted between steps; lifetimes also come from s-maxage with a contradicting max-age.",
    "pike's only clock seam (cache.nowUnix) is virtualised by a tag-guarded hook; no eviction (cache 100000 >> keys); Age arithmetic when the origin sent its own Age is not judged; a premature refetch of a fresh entry is counted, not judged (that is C01)",
    "DESIGN.md 6/C04"),
  "C01": ("inproc", "exploration",
@@ -27,7 +27,7 @@ CHECKS = {
    "DESIGN.md 6/C01"),
  "C07": ("inproc", "exploration",
    "reference-model replay of recorded histories + origin in-flight monitor with all contacts held (not-queued oracle) + hooked entry state + porcupine",
-   "Histories for seven configured periods (incl. non-positive and sub-second => 300 s): probes answered uncacheable / without Cache-Control / 5xx / protocol error / cacheable, bursts of 1-24 at mark+0, +1, +P-1, +P and +P+1; probes also fail by a truncated body (abort panic in the handler); during the period the origin holds every contact until all N of the burst are in flight together (independent, not queued) and the hook counter shows nobody parked; at +P+1 exactly one probe is in flight and N-1 are parked; two instances keep their markers in a store behind a tiny cache that is evicted inside the period; in a third of the histories the unchanged configuration is applied again inside the period; staggered porcupine histories with a concurrent clock advancer.",
+   "Histories for seven configured periods (incl. non-positive and sub-second => 300 s): probes answered uncacheable / without Cache-Control / 5xx / protocol error / cacheable, bursts of 1-24 (and 64, wider than the connection pools involved) at mark+0, +1, +P-1, +P and +P+1; a request that is neither at the origin, parked nor answered after 30 s counts as queued before the upstream; probes also fail by a truncated body (abort panic in the handler); during the period the origin holds every contact until all N of the burst are in flight together (independent, not queued) and the hook counter shows nobody parked; at +P+1 exactly one probe is in flight and N-1 are parked; two instances keep their markers in a store behind a tiny cache that is evicted inside the period; in a third of the histories the unchanged configuration is applied again inside the period; staggered porcupine histories with a concurrent clock advancer.",
    "virtual clock and hook points; no eviction; a transport-level retry of one request counts as one contact",
    "DESIGN.md 6/C07"),
  "C02": ("inproc", "fault_enumeration",
@@ -47,7 +47,7 @@ CHECKS = {
    "DESIGN.md 6/C03"),
  "C13": ("inproc", "exploration",
    "decision-table monitor (reference table vs HTTPResponse.Fill and vs the running server) + compressor call counters (hook) + byte comparison with the best-compression profile",
-   "The table dimensions of the statement are enumerated completely at the Fill level (14 Accept-Encoding values incl. tokens that merely contain 'gzip' and weighted codings, 7 stored-variant subsets, 4 sizes around two thresholds, default/custom filter, 6 content types, direct and after Cacheable()) with random bodies per cell; end-to-end through servers with default and configured thresholds/filters (two of them with an 8-entry LRU over a store, earlier keys revisited after eviction; two reconfigured by a reload of the running server; text, repetitive and incompressible bodies; upstreams that answer gzip or br encoded themselves): compressor call counters around every hit (no per-request recompression) and around bursts of coalesced requests on cold compressible keys (exactly one gzip and one br run), stored variants byte-compared with the best-compression profile's output.",
+   "The table dimensions of the statement are enumerated completely at the Fill level (14 Accept-Encoding values incl. tokens that merely contain 'gzip' and weighted codings, 7 stored-variant subsets, 4 sizes around two thresholds, default/custom filter, 6 content types, direct and after Cacheable()) with random bodies per cell; end-to-end through servers with default and configured thresholds/filters (two of them with an 8-entry LRU over a store, earlier keys revisited after eviction; two reconfigured by a reload of the running server; text, repetitive and incompressible bodies; upstreams that answer gzip or br encoded themselves; lifetimes from 1 s to a day; hits on one stored version with one Accept-Encoding must always get the same encoding): compressor call counters around every hit (no per-request recompression) and around bursts of coalesced requests on cold compressible keys (exactly one gzip and one br run), stored variants byte-compared with the best-compression profile's output.",
    "where the raw length and the lengths pike can see straddle the threshold both outcomes are accepted; Accept-Encoding without q-values",
    "DESIGN.md 6/C13"),
  "C05": ("inproc", "exploration",
@@ -57,7 +57,7 @@ CHECKS = {
    "DESIGN.md 6/C05"),
  "C15": ("inproc", "exploration",
    "differential monitor: origin request log vs reference transformation of the client request; client response vs origin response + configured headers; second-client probe after conditional/Range requests",
-   "Eight locations (unchanged, the two documented rewrite forms, literal swap, a two-rule rewrite chain applied rule after rule, added request/response headers, added query parameters, upstream Accept-Encoding override); generated methods, bodies up to 1 MiB, multi-valued and credential headers, escaped paths, queries with repeated keys/escapes/value-less parameters; chunked request bodies; conditional (matching and non-matching ETag / Last-Modified, ETag mismatch with matching Last-Modified) and Range (first bytes, suffix, multi-range, If-Range) headers on cold, hit and hit-for-pass keys (also keys whose upstream turns cacheable during the period) against an http.ServeContent origin; after client A a plain client B must receive the full 200.",
+   "Eight locations (unchanged, the two documented rewrite forms, literal swap, a two-rule rewrite chain applied rule after rule, added request/response headers, added query parameters, upstream Accept-Encoding override); generated methods, bodies up to 1 MiB (also on GET), upstream statuses 200/201/404/500/503 on the pass-through methods, one location over an enableH2C upstream, multi-valued and credential headers, escaped paths, queries with repeated keys/escapes/value-less parameters; chunked request bodies; conditional (matching and non-matching ETag / Last-Modified, ETag mismatch with matching Last-Modified) and Range (first bytes, suffix, multi-range, If-Range) headers on cold, hit and hit-for-pass keys (also keys whose upstream turns cacheable during the period) against an http.ServeContent origin; after client A a plain client B must receive the full 200.",
    "not judged: malformed queries, If-Match/412, X-Forwarded-For/User-Agent, upstream Accept-Encoding when the client sent none, conditional headers on a cold uncacheable fetch, 304 for HEAD",
    "DESIGN.md 6/C15"),
  "C06": ("inproc", "exploration",
@@ -72,12 +72,12 @@ CHECKS = {
    "DESIGN.md 6/C09"),
  "C12": ("inproc", "exploration",
    "round-trip oracle with pike's, standard and independent (gzip CLI, python zlib, zstd CLI) decoders; crash/hang monitor in isolated child processes",
-   "pike's Gzip/Brotli at levels -1..12 plus out-of-range 99/-7 on lengths 0..64, powers of two +-1 up to 1 MiB and random lengths with random/text/runs/zero content; valid streams of all five formats from self-checked reference encoders (multi-member gzip, gzip headers with FNAME/FCOMMENT/FEXTRA/MTIME, brotli windows 2^10..2^24 with flushes, zstd CLI output and zstd streaming-encoder frames declaring windows 2^10..2^25, ratios beyond 200x for lz4 and far more for br/zst) must be restored exactly by pike's decoders; earlier results are kept and re-verified after later operations (no shared buffers); malformed streams (truncation incl. every offset of small streams, bit flips, header edits, random bytes, doubled streams) under a per-case watchdog in a child process, a known-good stream of the format being restored right after every second malformed one.",
+   "pike's Gzip/Brotli at levels -1..12 plus out-of-range 99/-7 on lengths 0..64, powers of two +-1 up to 1 MiB and random lengths with random/text/runs/zero content; valid streams of all five formats from self-checked reference encoders (multi-member gzip, gzip headers with FNAME/FCOMMENT/FEXTRA/MTIME, brotli windows 2^10..2^24 with flushes, zstd CLI output and zstd streaming-encoder frames declaring windows 2^10..2^25, ratios beyond 200x for lz4 and far more for br/zst) must be restored exactly by pike's decoders; earlier results are kept and re-verified after later operations (no shared buffers); malformed streams (truncation incl. every offset of small streams, bit flips, header edits, random bytes, doubled streams) under a per-case watchdog in a child process, a known-good stream of the format being restored right after every second malformed one; snz and lz4 blocks of every length 0..4200; header edits over the first 14 bytes incl. zstd frames claiming a content size near 2^64.",
    "a malformed stream decoding to some bytes without error is accepted; survival + output validity stand in for memory safety of the third-party assembly decoders",
    "DESIGN.md 6/C12"),
  "C10": ("inproc", "fault_enumeration",
    "online monitor over client results + scripted store call log + hooked entry state, under per-call store fault injection",
-   "Every store call draws from {ok, not-found, error, delay, value truncated, random bytes, bit flip in header region / elsewhere, status field overwritten, empty} over histories of bursts, expiry, purge and eviction on a 16-entry cache with a healthy origin. Judged: always 200 with the key's intact body, hits only of still-valid versions, a memory-resident fresh hit never reads the store, an undecodable record yields an ordinary fetching miss, nobody stranded and no entry left fetching (hooked state at quiescence). Finally the configured store cannot be opened at all (badger directory below a regular file, redis nobody listens on): the cache serves memory-only. Garbled values that still decode are classified by the harness decoding them itself and only taint the key.",
+   "Every store call draws from {ok, not-found, error, delay, value truncated, random bytes, bit flip in header region / elsewhere, status field overwritten, empty} over histories of bursts, expiry, purge and eviction on a 16-entry cache with a healthy origin. Judged: always 200 with the key's intact body, hits only of still-valid versions, a memory-resident fresh hit never reads the store, an undecodable record yields an ordinary fetching miss, nobody stranded and no entry left fetching (hooked state at quiescence). Finally the configured store cannot be opened at all (badger directory below a regular file, redis nobody listens on): the cache serves memory-only and keeps its entries when the unchanged configuration is applied again. Garbled values that still decode are classified by the harness decoding them itself and only taint the key.",
    "well-formed-but-altered records cannot be detected without an integrity field (known finding class undetectable-corruption); a purge whose store delete failed is not judged afterwards",
    "DESIGN.md 6/C10"),
  "C08": ("proc", "fault_enumeration",
